@@ -13,6 +13,7 @@ import vlib
 from checks import liftlib
 
 HELPERS = ("template U() { signal input in; signal output out; out <== in; }\n"
+           "template V2() { signal input in; signal output o1; signal output o2; o1 <== in; o2 <== in + 1; }\n"
            "template V(n) { signal input a; signal input b; signal output c; c <== a * b; }\n")
 
 # (template source, expected number of findings) for forms the token count cannot handle
@@ -27,6 +28,11 @@ HAND = [
     ("template T() { signal input x; signal output o[3]; for (var i = 0; i < 3; i++) { o[i] <-- x; } o[0] === x; }", 1),
     ("template T(n) { signal input x; signal output o; if (n == 1) { o <-- x; } else { o <-- x * x * x; } o * o === x; }", 2),
     ("template T() { signal input x; signal output o; signal t; t <-- x; o <-- t * t * t; o === t; t === x; }", 2),
+    ("template T() { signal input x; signal input y; signal output c; signal output d; (x >> 1, y >> 1) --> (c, d); c === x; }", 2),
+    ("template T() { signal input x; signal input y; signal output c; signal output d; (x + 1, y) ==> (c, d); }", 0),
+    ("template T() { signal input x; signal output e; signal output f; V2()(x) --> (e, f); }", 2),
+    ("template T() { signal input x; signal output o; component d = U(); d.in <-- x >> 2; x === d.in * 4; o <== d.out; }", 1),
+    ("template T() { signal input x; signal output o; signal t; t <-- x >> 1; x === t * 2; o <== t; }", 1),
     ("function f(x) { var y = x; return y; }", 0),
     ("template custom T() { signal input x; signal output o; o <-- x * x * x; }", 0),
 ]
@@ -62,9 +68,22 @@ def gen_template(rng, k):
         else:
             body.append("%s <-- %s;" % (t, e))
         if rng.chance(1, 2):
-            body.append("%s === %s;" % (t, rng.choice(rhs[:4])))
+            if rng.chance(1, 2):
+                body.append("%s === %s;" % (t, rng.choice(rhs[:4])))
+            else:
+                body.append("%s === %s * 2;" % (rng.choice(rhs[:2]), t))
         if rng.chance(1, 4):
             body.append("%s * %s === in[0];" % (rng.choice(sorted(used)), rng.choice(["in[1]", "2"])))
+    free = [t for t in ["out[0]", "out[1]", "out[2]"] + ["s%d" % i for i in range(nsig)] if t not in used]
+    if len(free) >= 2 and rng.chance(1, 3):
+        a, b = free[0], free[1]
+        form = rng.below(3)
+        if form == 0:
+            body.append("(%s, %s) --> (%s, %s);" % (rng.choice(rhs), rng.choice(rhs), a, b))
+        elif form == 1:
+            body.append("(%s, %s) <-- (%s, %s);" % (a, b, rng.choice(rhs), rng.choice(rhs)))
+        else:
+            body.append("V2()(%s) --> (%s, %s);" % (rng.choice(rhs[:2]), a, b))
     return "template T%d(n) { %s %s }" % (k, " ".join(lines), " ".join(body))
 
 
@@ -90,6 +109,14 @@ def statements(src):
             start = i + 1
         i += 1
     return out
+
+
+def dest_count(t):
+    """number of assigned destinations of a `<--` / `-->` statement (tuple elements other than `_`)"""
+    dst = (t.split("<--")[0] if "<--" in t else t.split("-->")[1]).strip()
+    if dst.startswith("(") and dst.endswith(")"):
+        return len([x for x in dst[1:-1].split(",") if x.strip() != "_"])
+    return 1
 
 
 def norm(t):
@@ -204,22 +231,22 @@ def run(ctx):
             else:
                 stmts = statements(src)
                 arrow = [(a, b, t) for a, b, t in stmts if "<--" in t or "-->" in t]
-                if len(findings) != len(arrow):
-                    problems.append("%d findings for %d `<--`/`-->` statements" % (len(findings), len(arrow)))
+                if len(findings) != sum(dest_count(t) for a, b, t in arrow):
+                    problems.append("%d findings for %d assigned destinations" % (len(findings), sum(dest_count(t) for a, b, t in arrow)))
                 for a, b, t in arrow:
                     hits = [f for f in findings if f[1] <= a + 2 and b - 2 <= f[2] <= b + 1 or (f[1] >= a and f[2] <= b + 1)]
-                    if len(hits) != 1:
-                        problems.append("statement `%s` has %d findings anchored in it" % (t, len(hits)))
+                    if len(hits) != dest_count(t):
+                        problems.append("statement `%s` has %d findings anchored in it, expected %d" % (t, len(hits), dest_count(t)))
                         continue
-                    f = hits[0]
-                    target = t.split("<--")[0] if "<--" in t else t.split("-->")[1]
-                    if f[0] == "CS0005":
+                    for f in hits:
+                      target = (t.split("<--")[0] if "<--" in t else t.split("-->")[1]) if dest_count(t) == 1 and "(" not in (t.split("<--")[0] if "<--" in t else t.split("-->")[1]) else src[f[1]:f[2]]
+                      if f[0] == "CS0005":
                         want = sorted((a2, b2) for a2, b2, t2 in stmts if (a2, b2) != (a, b) and ("===" in t2 or "<==" in t2 or "==>" in t2) and mentions(t2, target))
                         got = [tuple(x) for x in f[3]]
                         # label ranges may or may not include surrounding blanks: compare by containment
                         okk = len(want) == len(got) and all(any(g[0] >= w[0] - 1 and g[1] <= w[1] + 1 for g in got) for w in want)
                         if not okk:
-                            problems.append("secondaries of `%s`: got %s, expected constraints at %s" % (t, got, want))
+                            problems.append("secondaries of `%s` (%s): got %s, expected constraints at %s" % (t, target.strip(), got, want))
             if problems:
                 l1 += 1
                 ctx.violation("signal-assignment-reports " + problems[0][:50], {"stage": "L1 one finding per `<--` statement, secondaries = mentioning constraints",
